@@ -4,7 +4,8 @@
    (its operations, cycle after cycle); `tlc` the same on a list of cycles. *)
 From Coq Require Import List ZArith.
 Import ListNotations.
-From BQ Require Import lib.Trace circuit.CModel circuit.CThm circuit.CThm2 circuit.CFold circuit.CFoldThm.
+From BQ Require Import lib.Trace circuit.CModel circuit.CThm circuit.CThm2 circuit.CFold circuit.CFoldThm
+  circuit.CExt circuit.CExtThm circuit.CTailThm.
 
 (* iteration order restricted to a qudit is that qudit's timeline *)
 Theorem C04_iteration_is_timeline : forall cs q,
@@ -307,12 +308,93 @@ Theorem C04_fold_idle_cycles_partial : forall c i q,
   tl (insert_cycle c i) q = tl c q /\ (cycle_at c i = [] -> tl (fst (pop_cycle c i)) q = tl c q).
 Proof. intros c i q. split; [exact (insert_cycle_tl_partial c i q)|exact (pop_idle_cycle_tl_partial c i q)]. Qed.
 
-(* the full statement for fold (whenever it returns, the recursively unfolded timelines are
-   unchanged) is not proved; correspondence + oracle cover it *)
+
+(* ---- fold = straighten ; fold_tail, and the tail (batch_pop + insert_circuit as a gate) as a whole ------- *)
+Theorem C04_fold_is_straighten_then_tail : forall c items,
+  fold c items =
+  let r := mk_region items in
+  if negb (intervals_ok r) then (c, Err ValueError)
+  else match r with
+       | [] => (c, Err ValueError)
+       | _ => match straighten_r c r with
+              | (c1, SErr e) => (c1, Err e)
+              | (c1, SOk r1 _ _) => fold_tail c1 r1
+              end
+       end.
+Proof. exact fold_is_tail. Qed.
+
+(* the same with the repaired straighten of fixes/D6.patch (fx = true: the algorithm /repo runs since that fix;
+   fx = false is the one above) *)
+Theorem C04_fold_x_is_straighten_then_tail : forall fx c items,
+  fold_x fx c items =
+  let r := mk_region items in
+  if negb (intervals_ok r) then (c, Err ValueError)
+  else match r with
+       | [] => (c, Err ValueError)
+       | _ => match straighten_rx fx c r with
+              | (c1, SErr e) => (c1, Err e)
+              | (c1, SOk r1 _ _) => fold_tail c1 r1
+              end
+       end.
+Proof. exact fold_x_is_tail. Qed.
+
+(* For the circuit c and region r that straighten hands over (tail_ok: every interval starts at the same cycle m and
+   lies inside the circuit, an operation with one cell in the region has all its cells there, every region qudit
+   holds a region operation and these are the qudits of the popped circuit): the tail returns m and, on EVERY qudit,
+   the result is the old timeline with the region's operations taken out (`filt`) and ONE block, located on the
+   sorted region qudits, put where the first of them was: after everything in cycles < m, before everything else. *)
+Theorem C04_fold_tail_replaces : forall c r,
+  Inv c -> tail_ok c r = true -> forall q,
+  exists sub, snd (batch_pop c (zpoints r)) = OkC sub /\
+  let blk := block_of sub (sort_nat (r_keys r)) in
+  nq sub = length (sort_nat (r_keys r)) /\ Inv sub /\
+  snd (fold_tail c r) = OkN (Z.of_nat (r_min_cycle r)) /\
+  tl (fst (fold_tail c r)) q = tlc (firstn (r_min_cycle r) (cycles c)) q ++ one q blk
+                               ++ tlc (filt (r_points r) (r_min_cycle r) (skipn (r_min_cycle r) (cycles c))) q.
+Proof. exact fold_tail_replaces. Qed.
+
+(* ... the timeline before is the same thing with, in the block's place, the popped operations of that qudit in
+   cycle order (`popped_on`): putting the block's content back (unfold) restores every timeline *)
+Theorem C04_fold_tail_original : forall c r,
+  tail_ok c r = true -> forall q,
+  tl c q = tlc (firstn (r_min_cycle r) (cycles c)) q ++ popped_on c r q
+           ++ tlc (filt (r_points r) (r_min_cycle r) (skipn (r_min_cycle r) (cycles c))) q.
+Proof. exact fold_tail_original. Qed.
+
+(* ... and the block's inner circuit holds, on the renumbered qudit, exactly these popped operations in that order;
+   a qudit outside the region loses nothing *)
+Theorem C04_fold_tail_block : forall c r q sub,
+  Inv c -> tail_ok c r = true -> snd (batch_pop c (zpoints r)) = OkC sub ->
+  let K := sort_nat (r_keys r) in
+  (In q K -> tl sub (index_of q K) = map (relab (fun a => index_of a K)) (popped_on c r q))
+  /\ (~ In q K -> popped_on c r q = []).
+Proof. exact fold_tail_block_both. Qed.
+
+(* the full statement for fold: the premise `tail_ok` of the three theorems above and timeline preservation by
+   straighten must be derived from check_region (the walk) - not proved; the harness evaluates tail_ok on the real
+   straightened state of every fold call *)
 Definition C04_fold_full : Prop := fold_keeps_unfolded_timelines_full.
 
-(* What is still correspondence-only in C04: batch_replace (a loop of the proved `replace` with
-   index compensation), the fixpoint of unfold_all (its step is C04_unfold_once), and fold as a whole. *)
+(* ---- unfold_all: the fixpoint -------------------------------------------------------------------------------- *)
+(* termination by nesting depth: depth+1 passes always suffice (no fuel left to the caller), the result holds no
+   block, and any larger fuel gives the same circuit *)
+Theorem C04_unfold_all_terminates : forall c,
+  exists c', unfold_all c = Some c' /\ has_block c' = false /\
+             forall fuel, circ_depth c < fuel -> unfold_all_fuel fuel c = Some c'.
+Proof. exact unfold_all_terminates. Qed.
+
+(* the result shows on every qudit the full expansion of the iteration order (every block replaced, `depth` times,
+   by its inner operations relabelled through its location, parameters distributed), which holds no block *)
+Theorem C04_unfold_all : forall c c' q,
+  Forall amo (cycles c) -> wf_circ c = true -> unfold_all c = Some c' ->
+  tl c' q = filter (touches q) (full_expand c).
+Proof. exact unfold_all_tl. Qed.
+
+Theorem C04_full_expand_flat : forall c o, In o (full_expand c) -> o_isblk o = false.
+Proof. exact full_expand_flat. Qed.
+
+(* What is still correspondence-only in C04: batch_replace (a loop of the proved `replace` with index
+   compensation) and, inside fold, straighten as a whole + the derivation of tail_ok from check_region. *)
 Definition C04_full : Prop :=
   C04_fold_full /\
   forall c pts ops q, exists ref_timeline : list op, tl (fst (batch_replace c pts ops)) q = ref_timeline.
@@ -348,3 +430,37 @@ Proof. split; [|vm_compute; repeat split].
   repeat (apply Forall_cons; [split; [discriminate|intros q; cbn;
             repeat match goal with |- context[if ?b then _ else _] => destruct b end; cbn; auto]|]).
   apply Forall_nil. Qed.
+
+(* non-vacuity of the fold-tail group: an aligned closed region {0:[1,1], 1:[1,2]} of a 3-qubit circuit; the two
+   region operations become one block on (0,1) in cycle 1; here straighten has nothing to do, so this is fold *)
+Example C04_nonvacuous_fold_tail :
+  let x0 := Op false 1 [0] [] [2] [] in
+  let cx01 := Op false 4 [0;1] [] [2;2] [] in
+  let rz1 := Op false 2 [1] [7%Z] [2] [] in
+  let cx12 := Op false 4 [1;2] [] [2;2] [] in
+  let c := mkC 3 [2;2;2] [[x0]; [cx01]; [rz1]; [cx12]] in
+  let r := [(0, (1, 1)); (1, (1, 2))] in
+  let blk := Op true 0 [0;1] [7%Z] [2;2] [[cx01]; [rz1]] in
+  Inv c /\ tail_ok c r = true
+  /\ fold_tail c r = (mkC 3 [2;2;2] [[x0]; [blk]; [cx12]], OkN 1%Z)
+  /\ fold c r = fold_tail c r
+  /\ popped_on c r 1 = [cx01; rz1] /\ popped_on c r 2 = [].
+Proof. split; [|vm_compute; repeat split].
+  unfold Inv; cbn [cycles].
+  repeat (apply Forall_cons; [split; [discriminate|intros q; cbn;
+            repeat match goal with |- context[if ?b then _ else _] => destruct b end; cbn; auto]|]).
+  apply Forall_nil. Qed.
+
+(* non-vacuity of the unfold_all group: a block nested in a block (depth 2): two passes, no fuel argument *)
+Example C04_nonvacuous_unfold_all :
+  let h := Op false 1 [0] [] [2] [] in
+  let rz := Op false 2 [1] [0%Z] [2] [] in
+  let inner := Op true 0 [1;0] [0%Z] [2;2] [[rz]; [Op false 4 [0;1] [] [2;2] []]] in
+  let outer := Op true 0 [2;0] [9%Z] [2;2] [[h]; [inner]] in
+  let c := mkC 3 [2;2;2] [[outer]] in
+  circ_depth c = 2 /\ wf_circ c = true /\ Forall amo (cycles c)
+  /\ unfold_all c = Some (mkC 3 [2;2;2] [[Op false 1 [2] [] [2] []]; [Op false 2 [2] [9%Z] [2] []]; [Op false 4 [0;2] [] [2;2] []]])
+  /\ unfold_all_fuel 1 c = None
+  /\ filter (touches 2) (full_expand c) = [Op false 1 [2] [] [2] []; Op false 2 [2] [9%Z] [2] []; Op false 4 [0;2] [] [2;2] []].
+Proof. split; [vm_compute; reflexivity|]. split; [vm_compute; reflexivity|]. split; [|vm_compute; repeat split].
+  constructor; [|constructor]. apply amo_single. Qed.
